@@ -20,10 +20,18 @@ type c10Union interface{ c10Union_Union() }
 type c10Union_A struct{ Value int }
 type c10Union_B struct{ Value string }
 type c10Union_C struct{}
+type c10Union_D struct{ Value []int } // a case with a slice payload
 
 func (c10Union_A) c10Union_Union() {}
 func (c10Union_B) c10Union_Union() {}
 func (c10Union_C) c10Union_Union() {}
+func (c10Union_D) c10Union_Union() {}
+
+// slice-free containers that hold a union (whose case may hold a slice)
+type c10RecU2 struct {
+	Name string
+	U    c10Union
+}
 
 type c10RecNest struct {
 	Name  string
@@ -164,5 +172,20 @@ func Harness_C10_Transitive() {
 	if ab && bc {
 		verifAssert(ac, "= is transitive")
 	}
+	verifCover("end")
+}
+
+// a union case with a slice payload inside slice-free records / tuples: the
+// container is statically comparable in Go, its contents are not
+func Harness_C10_UnionWithSlicePayload() {
+	x, y := c10Slice("x"), c10Slice("y")
+	var u, v c10Union = c10Union_D{x}, c10Union_D{y}
+	c10Check(u, v, c10SameInts(x, y), "union case with a slice payload")
+	a, b := verifInt("a"), verifInt("b")
+	c10Check(NewTuple2(a, u), NewTuple2(b, v), a == b && c10SameInts(x, y), "tuple holding a union with a slice payload")
+	c10Check(c10RecU2{"n", u}, c10RecU2{"n", v}, c10SameInts(x, y), "record holding a union with a slice payload")
+	w, kw, _, _ := c10MkUnion("w")
+	_ = kw
+	c10Check(c10RecU2{"n", u}, c10RecU2{"n", w}, false, "record holding different union cases")
 	verifCover("end")
 }
